@@ -8,7 +8,7 @@ from checkcfg import PROPS, NOT_APPLICABLE, HOOK_COMMITS
 ids = [json.loads(l)["id"] for l in open(os.path.join(ROOT, "properties.jsonl")) if l.strip()]
 checks = []
 for pid in ids:
-    if pid not in PROPS or PROPS[pid].get("unclaimed"):
+    if pid not in PROPS or not PROPS[pid].get("claimed"):
         continue
     c = PROPS[pid]
     checks.append({
